@@ -264,8 +264,8 @@ func init() {
 		},
 		NBatches: func(t core.Tier) int { return n(t, 16, 64) },
 		Floors: func(t core.Tier) map[string]int {
-			return map[string]int{"evaluations": n(t, 6000, 200000), "distinct_nontrivial": n(t, 2000, 60000), "ref_agreed": n(t, 1500, 50000),
-				"opcode_pairs": 150, "spellings_with_different_code": n(t, 1000, 30000)}
+			return map[string]int{"evaluations": n(t, 15000, 200000), "distinct_nontrivial": n(t, 6000, 60000), "ref_agreed": n(t, 4500, 50000),
+				"opcode_pairs": 150, "spellings_with_different_code": n(t, 3000, 30000)}
 		},
 		Run: func(c *core.Ctx) {
 			if err := diffrun.Prepare(c.WorkDir()); err != nil {
@@ -280,7 +280,7 @@ func init() {
 					c.Count("systematic_cases", 1)
 				}
 			}
-			total := n(c.Tier, 3200, 120000) / c.NBatches
+			total := n(c.Tier, 9600, 120000) / c.NBatches
 			for i := 0; i < total; i++ {
 				fam := c01Families[rng.Intn(len(c01Families))]
 				cs := c01Generate(rng.Int63(), fam)
